@@ -304,6 +304,18 @@ def run_impl(case):
                     a_vals = np.array(vals)
             kw = dict(transform=tr, initial_value=init, greedy_values=greedy, allow_repeats=case['rep'])
             c = sensor_to_categorical(a_ts, a_vals, mids, period, **kw)
+            # the same raw events converted once more (a getter shared by a name and its alias, a second direct call):
+            # the conversion leaves the caller's values alone, so it answers the same again
+            try:
+                c2 = sensor_to_categorical(a_ts, a_vals, mids, period, **kw)
+                first = ([code_of(case['alpha'], v) for v in c.unique_values], np.asarray(c.indices).tolist(),
+                         np.asarray(c.events).tolist())
+                second = ([code_of(case['alpha'], v) for v in c2.unique_values], np.asarray(c2.indices).tolist(),
+                          np.asarray(c2.events).tolist())
+                if first != second:
+                    res['second'] = f'values {second[0]} at boundaries {second[2]}'
+            except Exception as e2:   # noqa: BLE001
+                res['second'] = f'{type(e2).__name__}'
         res['uniq'] = [code_of(case['alpha'], v) for v in c.unique_values]
         res['idx'] = [int(i) for i in np.asarray(c.indices).tolist()]
         res['ev'] = [int(e) for e in np.asarray(c.events).tolist()]
@@ -347,6 +359,9 @@ def judge(ctx, case, mreply, sreply, impl):
     if impl['err'] is not None:
         return f"implementation raised {impl['err']} where the rule gives per-dump values {want}"
     uniq, idx, ev = impl['uniq'], impl['idx'], impl['ev']
+    if impl.get('second') is not None:
+        return (f"the same raw events converted a second time give {impl['second']} instead of values {uniq} at "
+                f"boundaries {ev}: the first conversion modified the caller's values")
     if any(u is None for u in uniq):
         return f'result contains a value that is neither a transformed sensor value nor the initial value: {uniq}'
     if not ev or ev[0] != 0 or ev[-1] != N:
